@@ -46,12 +46,15 @@ Proof.
   - intros ->. rewrite (proj2 (mst_eqb_eq _ _) eq_refl), (proj2 (res_eqb_eq _ _) eq_refl). reflexivity.
 Qed.
 
-Definition canonL (l : llabel) : llabel := match l with Lab x => Lab (canon_label x) | Exit => Exit end.
+Definition canonL (l : llabel) : llabel := match l with Lab x => Lab (canon_label x) | Exit => Exit | Late e => Late e end.
+Lemma all_events_complete e : In e all_events.
+Proof. destruct e; unfold all_events; repeat (first [left; reflexivity | right]). Qed.
 Lemma canonL_in l : In (canonL l) (Lab (Ext SPA_MAN_ENTER) :: llabels).
 Proof.
-  destruct l as [x|]; cbn [canonL].
-  - destruct (canon_in x) as [H|H]; [left; now rewrite H|right; right; apply in_map; exact H].
+  destruct l as [x| |e]; cbn [canonL].
+  - destruct (canon_in x) as [H|H]; [left; now rewrite H|right; right; apply in_or_app; right; apply in_map; exact H].
   - right. left. reflexivity.
+  - right. right. apply in_or_app. left. apply in_map. apply all_events_complete.
 Qed.
 
 (* the ledger step only looks at the successor state of the inner step, which canonical labels preserve *)
@@ -60,7 +63,7 @@ Proof. exact (step_canon s l). Qed.
 
 Lemma lstep_canon x l : lstep x l = lstep x (canonL l).
 Proof.
-  destruct l as [l|]; [|reflexivity]. destruct x as [s r]. unfold lstep, canonL. destruct (exited r); [reflexivity|].
+  destruct l as [l| |e]; [|reflexivity|reflexivity]. destruct x as [s r]. unfold lstep, canonL. destruct (exited r); [reflexivity|].
   pose proof (step_canon_full s l) as E.
   destruct (step s l) as [[s1 d1]|] eqn:E1; destruct (step s (canon_label l)) as [[s2 d2]|] eqn:E2; cbn in E; try discriminate; [|reflexivity].
   injection E as <-.
@@ -101,3 +104,12 @@ Theorem reset_releases_everywhere c ls x : runL (entered c, r0) ls = Some x -> r
 Proof. intros R. pose proof all_reset_releases as A. rewrite forallb_forall in A. apply A. eapply reachL_complete; eauto. Qed.
 Theorem exit_releases_everywhere c ls x : runL (entered c, r0) ls = Some x -> exit_releases x = true.
 Proof. intros R. pose proof all_exit_releases as A. rewrite forallb_forall in A. apply A. eapply reachL_complete; eauto. Qed.
+
+(* late events of an abandoned connection change nothing: not the lifecycle state, not the ledger *)
+Definition late_inert (x : mst * res) : bool :=
+  exited (snd x) || forallb (fun e => match lstep x (Late e) with Some y => pair_eqb x y | None => false end) all_events.
+Lemma all_late_inert : forallb late_inert reachL = true.
+Proof. Local Transparent step handle reset. vm_compute. reflexivity. Qed.
+Global Opaque step handle reset.
+Theorem late_events_inert c ls x : runL (entered c, r0) ls = Some x -> late_inert x = true.
+Proof. intros R. pose proof all_late_inert as A. rewrite forallb_forall in A. apply A. eapply reachL_complete; eauto. Qed.
